@@ -29,6 +29,8 @@ static std::atomic<long long> g_live_count{0};
 static std::atomic<long long> g_live_bytes{0};
 static std::atomic<std::uint64_t> g_double_free{0};
 static std::atomic<std::uint64_t> g_size_mismatch{0};
+static std::atomic<std::uint64_t> g_aligned_allocs{0}; // operator new(size, align): nodes and value blocks
+static std::atomic<std::uint64_t> g_aligned_frees{0};
 static std::atomic<bool> g_on{false};
 static std::mutex g_mu;
 
@@ -119,6 +121,7 @@ void* operator new[](std::size_t sz) {
 }
 void* operator new(std::size_t sz, std::align_val_t al) {
     void* p = vt_alloc(sz, static_cast<std::size_t>(al));
+    if (vtrack::g_on.load(std::memory_order_relaxed)) ++vtrack::g_aligned_allocs;
     vtrack::on_alloc(p, sz, static_cast<std::size_t>(al));
     return p;
 }
@@ -144,6 +147,7 @@ void operator delete[](void* p, std::size_t sz) noexcept {
     std::free(p);
 }
 void operator delete(void* p, std::align_val_t al) noexcept {
+    if (p != nullptr && vtrack::g_on.load(std::memory_order_relaxed)) ++vtrack::g_aligned_frees;
     vtrack::on_free(p, SIZE_MAX, static_cast<std::size_t>(al));
     std::free(p);
 }
@@ -152,6 +156,7 @@ void operator delete[](void* p, std::align_val_t al) noexcept {
     std::free(p);
 }
 void operator delete(void* p, std::size_t sz, std::align_val_t al) noexcept {
+    if (p != nullptr && vtrack::g_on.load(std::memory_order_relaxed)) ++vtrack::g_aligned_frees;
     vtrack::on_free(p, sz, static_cast<std::size_t>(al));
     std::free(p);
 }
